@@ -10,22 +10,30 @@ MANIFEST_TEXT = ("Lean 4 theorems over an arbitrary field, for every size n and 
                  "pivoting modes); nonsingular A => solve returns x with A*x = b and invert returns B with A*B = B*A = 1 with "
                  "pivoting, and without pivoting exactly when all leading principal minors are nonzero; singular A of size >= 4 "
                  "=> FMatrixError in both modes; the calls without the optional argument behave as pivoting-on (default "
-                 "arguments read off the source); FMatrixHelp::invertMatrix[_retTransposed]; DiagonalMatrix likewise. The model "
+                 "arguments read off the source); FMatrixHelp::invertMatrix[_retTransposed]; DiagonalMatrix likewise. "
+                 "Floating point: the same models instantiated with rounded real arithmetic (standard model fl(x)=x(1+d), "
+                 "|d|<=u) satisfy the backward-error bound of Gaussian elimination for every n (Higham Thm 9.3/8.5/9.4 with "
+                 "constant 3g+g^2, g=gamma_{n+1}): solve returns the exact solution of (A+dA)x=b, every column of invert solves "
+                 "(A+dA_c)x=e_c, determinant = det(A+dA)(1+t), |dA| <= c |L||U|; DiagonalMatrix members likewise. The model "
                  "is run against FieldMatrix/DynamicMatrix/DiagonalMatrix instantiated with a GF(32003) number class (n=1..7, "
                  "DynamicMatrix up to 10; >=80k cases per quick run incl. all 0/1 matrices of size 3 and, in the thorough tier, "
                  "of size 4) with an independent Laplace-determinant / A*x==b / A*B==I oracle and operand-unchanged checks; "
                  "double/long double/complex are checked by residual (well-conditioned, permutation+tiny, unit-phase families).")
-MANIFEST_NOTE = ("Trusted: Lean kernel (+propext/Classical.choice/Quot.sound), Mathlib's Matrix.det, tr_c02.py, the fidelity "
-                 "of the hand-written LU model (differential execution over GF(p) only; any harmless change of pivot choice is "
-                 "invisible there by design), g++/ASan/UBSan. Floating point: the backward-error bound of Gaussian elimination "
-                 "is assumed, not proved; the harness checks residuals against 100 n^2 eps bounds for matrices with condition "
-                 "number <= ~100 (pivoting; incl. scaled permutations + tiny noise, where only the column maximum is a safe "
-                 "pivot, and complex matrices with purely real/imaginary entries) or strictly diagonally dominant ones (no "
-                 "pivoting). Singular n<=3, singular DiagonalMatrix and unpivoted break-down on nonsingular A are outside the "
-                 "property and are not compared; non-square operands and 0x0 DynamicMatrix (cols() asserts) are outside its "
-                 "domain; #ifdef DUNE_FMatrix_WITH_CHECKING code is not compiled. SIMD lanes: see C09.")
+MANIFEST_NOTE = ("Trusted: Lean kernel (+propext/Classical.choice/Quot.sound), Mathlib's Matrix.det and real numbers, "
+                 "tr_c02.py, the fidelity of the hand-written LU model (differential execution over GF(p) only; any harmless "
+                 "change of pivot choice is invisible there by design), g++/ASan/UBSan. Floating point: proved for real scalars "
+                 "under the standard rounding model without overflow/underflow, in terms of the computed factors |L||U| (no "
+                 "growth-factor bound); that the machine arithmetic satisfies this model, the complex case, the closed forms "
+                 "n<=3 (Cramer's rule: forward stable only) and the left residual B*A-I of invert are not proved; the harness "
+                 "checks residuals against 100 n^2 eps bounds for matrices with condition number <= ~100 (pivoting; incl. "
+                 "scaled permutations + tiny noise, where only the column maximum is a safe pivot, and complex matrices with "
+                 "purely real/imaginary entries) or strictly diagonally dominant ones (no pivoting). Singular n<=3, singular "
+                 "DiagonalMatrix and unpivoted break-down on nonsingular A are outside the property and are not compared; "
+                 "non-square operands and 0x0 DynamicMatrix (cols() asserts) are outside its domain; #ifdef "
+                 "DUNE_FMatrix_WITH_CHECKING code is not compiled. SIMD lanes: see C09.")
 TECHNIQUE = ('Lean 4 proof (L*W = P*A0 invariant of in-place LU with partial pivoting, any field, any n; top-level theorems '
-             'about the size-dispatching member functions) + translator for the closed-form blocks, the size dispatch and the '
+             'about the size-dispatching member functions; entry-wise rounding-error invariant for the same loops over '
+             'rounded reals) + translator for the closed-form blocks, the size dispatch and the '
              'default arguments + differential correspondence over GF(32003) with independent oracle')
 TRANSLATORS = [tr_c02.translate]
 HARNESS = dict(
@@ -46,7 +54,7 @@ RULE = ("cases: field gf|f64|ld|c64 x op solve|invert|det|FMatrixHelp::invertMat
 ASSUMPTIONS = [
     "the LU model lean/DuneVerif/Model/C02.lean is hand-written; its fidelity to densematrix.hh rests on the differential run over GF(32003)",
     "the closed forms for n<=3, FMatrixHelp::invertMatrix*, the list of sizes with a closed-form branch and the default arguments of doPivoting are regenerated from the source by tools/translators/tr_c02.py (straight-line grammar; anything else raises)",
-    "floating point: classical backward-error bound of Gaussian elimination assumed; residual tolerance 100 n^2 eps relative to ||A|| ||x|| + ||b|| (solve), ||A|| ||B|| (inverse), prod of row 1-norms (determinant)",
+    "floating point: the backward-error theorems are about the models over reals with a rounding function of relative error <= u (standard model, no overflow/underflow, real scalars); that IEEE double / x87 long double / std::complex arithmetic as compiled meets it is assumed; harness residual tolerance 100 n^2 eps relative to ||A|| ||x|| + ||b|| (solve), ||A|| ||B|| (inverse), prod of row 1-norms (determinant)",
     "the theorems need absval x = 0 <-> x = 0 and 0 <= absval x (true for abs on real/complex fields and for the harness' GF(p) class)",
     "'solve and determinant never modify A or b' is decided by the harness (operands compared before/after), the functional model cannot express it",
     "square operands of size >= 1 only (rows()!=cols() throws FMatrixError by an explicit guard; a 0x0 DynamicMatrix fails the assertion in mat_cols())",
